@@ -250,7 +250,7 @@ def run_and_validate(jobs, name, workdir, atomics="st", specs=("Trace_Abs",), np
     return res
 
 
-ORD_RE = re.compile(r'<<\s*"TRACE_MEM_ORD",\s*"([^"]*)",\s*"(\w+)",\s*"(\w+)",\s*"([\w-]+)"\s*>>')
+ORD_RE = re.compile(r'<<\s*"TRACE_MEM_ORD",\s*"([^"]*)",\s*"(\w+)",\s*"(\w+)",\s*"(\w+)",\s*"([\w-]+)"\s*>>')
 
 
 def collect_ords(files, workdir):
@@ -262,7 +262,7 @@ def collect_ords(files, workdir):
             for l in join_tuples(open(o).read()):
                 m = ORD_RE.search(l)
                 if m:
-                    ords["%s %s" % (m.group(1), m.group(2))] = [m.group(3), m.group(4)]
+                    ords["%s %s %s" % (m.group(1), m.group(2), m.group(3))] = [m.group(4), m.group(5)]
     return ords
 
 
